@@ -152,7 +152,63 @@ fn program(subject: &X, arms: Vec<Arm>, use_kind: usize) -> Vec<X> {
     p
 }
 
+/// alternatives made of nested container patterns; the body uses the names bound by both
+fn gen_or_nested(emit: Emit) {
+    let t = |v: Vec<Pat>| Pat::Tuple(v, None);
+    let l = |i: i64| Pat::Lit(int(i));
+    let v = |n: &str| Pat::Id(n.into(), None);
+    let pats: Vec<(Pat, Vec<&'static str>)> = vec![
+        (t(vec![t(vec![l(1), l(2)]), v("x")]), vec!["x"]),
+        (t(vec![t(vec![l(3), l(4)]), v("x")]), vec!["x"]),
+        (t(vec![t(vec![l(1), l(2)]), l(3)]), vec![]),
+        (t(vec![t(vec![l(1), l(5)]), l(3)]), vec![]),
+        (t(vec![t(vec![v("a"), l(2)]), v("x")]), vec!["a", "x"]),
+        (t(vec![t(vec![l(1), Pat::Ellipsis(Some("rest".into()))]), v("x")]), vec!["rest", "x"]),
+        (t(vec![t(vec![l(1), Pat::Wild(None, None)]), v("x")]), vec!["x"]),
+        (t(vec![l(1), t(vec![l(2), l(9)]), v("x")]), vec!["x"]),
+        (t(vec![l(1), t(vec![l(2), v("x")]), l(4)]), vec!["x"]),
+        (t(vec![t(vec![l(1), t(vec![l(2), l(3)])]), v("x")]), vec!["x"]),
+        (v("x"), vec!["x"]),
+        (l(9), vec![]),
+    ];
+    let tup = |vs: Vec<X>| tuple(vs);
+    let subjects: Vec<X> = vec![
+        tup(vec![tup(vec![int(1), int(2)]), int(3)]),
+        tup(vec![tup(vec![int(3), int(4)]), int(5)]),
+        tup(vec![tup(vec![int(1), int(2)]), int(7)]),
+        tup(vec![tup(vec![int(1), int(5)]), int(3)]),
+        tup(vec![int(1), tup(vec![int(2), int(3)]), int(4)]),
+        tup(vec![int(1), tup(vec![int(2), int(9)]), int(8)]),
+        tup(vec![tup(vec![int(1), tup(vec![int(2), int(3)])]), int(6)]),
+        int(9),
+        list(vec![list(vec![int(1), int(2)]), int(3)]),
+    ];
+    for sv in &subjects {
+        for p1 in &pats {
+            for p2 in &pats {
+                for p3 in [None, Some(&pats[10])] {
+                    let mut alts = vec![vec![p1.0.clone()], vec![p2.0.clone()]];
+                    let mut common: Vec<&'static str> = p1.1.iter().filter(|n| p2.1.contains(n)).cloned().collect();
+                    if let Some(p3) = p3 {
+                        alts.push(vec![p3.0.clone()]);
+                        common.retain(|n| p3.1.contains(n));
+                    }
+                    let mut shown: Vec<X> = vec![s("alt")];
+                    shown.extend(common.iter().map(|n| id(n)));
+                    for guard in [None, Some(boolean(false))] {
+                        let a = Arm { alts: alts.clone(), guard: guard.clone(), body: blk(vec![print(tuple(shown.clone())), int(1)]), is_else: false };
+                        let e = Arm { alts: vec![], guard: None, body: blk(vec![print(s("else")), int(2)]), is_else: true };
+                        let prog = vec![assign("v", sv.clone()), assign("r", x(E::Match(vec![id("v")], vec![a, e]))), print(id("r"))];
+                        emit(Case { family: "match-or-nested", prog, shape: vec![] });
+                    }
+                }
+            }
+        }
+    }
+}
+
 pub fn generate(tier: Tier, emit: Emit) {
+    gen_or_nested(emit);
     let subs = subjects();
     let core = patterns_core();
     let full = patterns_full();
